@@ -325,14 +325,18 @@ theorem allocSize_cons_none (m : Nat) (l : Log) (x : Ptr) : allocSize (.alloc m 
 theorem mem_keys {P : MPool} {x : Ptr} {k : Fin 64} (h : (x, k) ∈ P.supplied) : x ∈ P.keys :=
   List.mem_map.2 ⟨(x, k), h, rfl⟩
 
+/-- `supplied_` after `allocate`: one more entry exactly when a block is handed out, and that block
+was obtained from the allocator with the reported size -/
+def KeysAfter (P : MPool) (log' : Log) (P' : MPool) : MPool.AllocRes → Prop
+  | .block ptr m => P'.keys = ptr :: P.keys ∧ allocSize log' ptr = some m
+  | _ => P'.keys = P.keys
+
 theorem AllocStep.inv {ora : Oracle} {P P' : MPool} {log log' : Log} {size : Nat} {r : MPool.AllocRes}
     (st : AllocStep ora P log size P' log' r) (hf : ora.Fresh) (R : List Ptr) (hw : Log.wf log)
     (hp : (P.owned ++ R).Perm (outstanding log)) (hs : SizesOk P log) :
     Log.wf log' ∧ (P'.owned ++ R).Perm (outstanding log') ∧ SizesOk P' log' ∧
     (∀ x ∈ R, allocSize log' x = allocSize log x) ∧ P'.id = P.id ∧ P'.minSize = P.minSize ∧
-    (match r with
-      | .block ptr m => P'.keys = ptr :: P.keys ∧ allocSize log' ptr = some m
-      | _ => P'.keys = P.keys) := by
+    KeysAfter P log' P' r := by
   have hnd : (P.owned ++ R).Nodup := hp.symm.nodup (wf_nodup hw)
   cases st with
   | null h0 => exact ⟨hw, hp, hs, fun _ _ => rfl, rfl, rfl, rfl⟩
@@ -435,5 +439,947 @@ theorem AllocStep.inv {ora : Oracle} {P P' : MPool} {log log' : Log} {size : Nat
         exact hs.2 x j hx
     · intro x hx
       rw [allocSize_cons_none, allocSize_relLog, allocSize_cons_none]
+
+/-! ### `free` and the destructor -/
+
+theorem keys_eraseP (s : List (Ptr × Fin 64)) (p : Ptr) :
+    (s.eraseP (·.1 == p)).map (·.1) = (s.map (·.1)).erase p := by
+  induction s with
+  | nil => rfl
+  | cons e s ih =>
+    by_cases h : e.1 = p
+    · simp [h]
+    · have h' : (e.1 == p) = false := by simpa using h
+      simp only [List.eraseP_cons, h', cond_false, List.map_cons]
+      rw [List.erase_cons_tail (by simpa using h), ih]
+
+theorem free_of_mem {P : MPool} {ptr : Ptr} (h : ptr ∈ P.keys) :
+    ∃ k, (ptr, k) ∈ P.supplied ∧
+      P.free ptr = some { P with reserved := setClass P.reserved k (ptr :: P.reserved k),
+                                 supplied := P.supplied.eraseP (·.1 == ptr) } := by
+  unfold MPool.free
+  cases hf : P.supplied.find? (·.1 == ptr) with
+  | none =>
+    exfalso
+    rcases List.mem_map.1 h with ⟨e, he, hpe⟩
+    have := List.find?_eq_none.1 hf e he
+    simp [hpe] at this
+  | some e =>
+    obtain ⟨x, k⟩ := e
+    have hx : x = ptr := by simpa using List.find?_some hf
+    subst hx
+    exact ⟨k, List.mem_of_find?_eq_some hf, rfl⟩
+
+theorem free_of_not_mem {P : MPool} {ptr : Ptr} (h : ptr ∉ P.keys) : P.free ptr = none := by
+  unfold MPool.free
+  cases hf : P.supplied.find? (·.1 == ptr) with
+  | none => rfl
+  | some e =>
+    exfalso
+    apply h
+    have hx : e.1 = ptr := by simpa using List.find?_some hf
+    exact List.mem_map.2 ⟨e, List.mem_of_find?_eq_some hf, hx⟩
+
+/-- `free` moves one block from `supplied_` to the free list of its class. -/
+theorem free_inv {P P' : MPool} {ptr : Ptr} {log : Log} (hfree : P.free ptr = some P') (hs : SizesOk P log) :
+    P'.owned.Perm P.owned ∧ SizesOk P' log ∧ P'.id = P.id ∧ P'.minSize = P.minSize ∧
+    P'.keys = P.keys.erase ptr ∧ ptr ∈ P.keys := by
+  have hmem : ptr ∈ P.keys := by
+    apply Classical.byContradiction
+    intro hn
+    rw [free_of_not_mem hn] at hfree
+    cases hfree
+  obtain ⟨k, hk, he⟩ := free_of_mem hmem
+  rw [he] at hfree
+  cases hfree
+  have hkeys : ({ P with reserved := setClass P.reserved k (ptr :: P.reserved k),
+                         supplied := P.supplied.eraseP (·.1 == ptr) } : MPool).keys = P.keys.erase ptr :=
+    keys_eraseP P.supplied ptr
+  refine ⟨?_, ?_, rfl, rfl, hkeys, hmem⟩
+  · show (flat (setClass P.reserved k (ptr :: P.reserved k)) ++ MPool.keys _).Perm (flat P.reserved ++ P.keys)
+    rw [hkeys]
+    have h1 := flat_perm_push P.reserved k ptr
+    have h2 : P.keys.Perm (ptr :: P.keys.erase ptr) := List.perm_cons_erase hmem
+    exact ((List.Perm.append_right _ h1).trans List.perm_middle.symm).trans (List.Perm.append_left _ h2.symm)
+  · constructor
+    · intro j x hx
+      replace hx : x ∈ setClass P.reserved k (ptr :: P.reserved k) j := hx
+      by_cases hj : j = k
+      · subst hj
+        rw [setClass_same] at hx
+        rcases List.mem_cons.1 hx with h | h
+        · subst h; exact hs.2 x j hk
+        · exact hs.1 j x h
+      · rw [setClass_other _ _ _ _ hj] at hx; exact hs.1 j x hx
+    · intro x j hx
+      exact hs.2 x j ((List.eraseP_sublist).subset hx)
+
+theorem flat_drain (s : List (Ptr × Fin 64)) : ∀ r : Fin 64 → List Ptr,
+    (flat (MPool.drain r s)).Perm (s.map (·.1) ++ flat r) := by
+  induction s with
+  | nil => intro r; exact List.Perm.refl _
+  | cons e s ih =>
+    intro r
+    obtain ⟨x, k⟩ := e
+    show (flat (MPool.drain (setClass r k (x :: r k)) s)).Perm (x :: (s.map (·.1) ++ flat r))
+    exact (ih _).trans ((List.Perm.append_left _ (flat_perm_push r k x)).trans List.perm_middle)
+
+/-- The destructor passes exactly the blocks the pool owns to the deleter. -/
+theorem destroy_inv (P : MPool) (log : Log) (R : List Ptr) (hw : Log.wf log)
+    (hp : (P.owned ++ R).Perm (outstanding log)) :
+    Log.wf (P.destroy log).2 ∧ R.Perm (outstanding (P.destroy log).2) ∧
+    (∀ x, allocSize (P.destroy log).2 x = allocSize log x) ∧
+    ∃ F, F.Perm P.owned ∧ (P.destroy log).2 = relLog F log := by
+  have hF : (flat (MPool.drain P.reserved P.supplied)).Perm P.owned :=
+    (flat_drain P.supplied P.reserved).trans List.perm_append_comm
+  have hd : (P.destroy log).2 = relLog (flat (MPool.drain P.reserved P.supplied)) log := rfl
+  rw [hd]
+  obtain ⟨h1, h2⟩ := release_ok _ R log hw ((List.Perm.append_right R hF).trans hp)
+  exact ⟨h1, h2, fun x => allocSize_relLog _ _ x, _, hF, rfl⟩
+
+/-! ### the registry -/
+
+theorem find_split {α : Type} (key : α → Nat) (pid : Nat) : ∀ (l : List α) (P : α), (l.map key).Nodup →
+    l.find? (key · == pid) = some P → l.Perm (P :: l.filter (key · != pid)) := by
+  intro l
+  induction l with
+  | nil => intro P _ h; cases h
+  | cons Q l ih =>
+    intro P hn hf
+    have hQl : key Q ∉ l.map key := (List.nodup_cons.1 hn).1
+    have hnl : (l.map key).Nodup := (List.nodup_cons.1 hn).2
+    by_cases hq : key Q = pid
+    · have : P = Q := by
+        rw [List.find?_cons] at hf
+        simp [hq] at hf
+        exact hf.symm
+      subst this
+      have hall : l.filter (key · != pid) = l := by
+        apply List.filter_eq_self.2
+        intro a ha
+        have : key a ≠ pid := fun e => hQl (List.mem_map.2 ⟨a, ha, by rw [e, hq]⟩)
+        simpa using this
+      rw [List.filter_cons]
+      simp [hq, hall]
+    · have hq' : (key Q == pid) = false := by simpa using hq
+      rw [List.find?_cons, hq'] at hf
+      have h1 := ih P hnl hf
+      rw [List.filter_cons]
+      have : (key Q != pid) = true := by simpa using hq
+      simp only [this, if_true]
+      exact (List.Perm.cons Q h1).trans (List.Perm.swap P Q _)
+
+theorem findPool_id {w : World} {pid : Nat} {P : MPool} (h : w.findPool pid = some P) : P.id = pid := by
+  simpa using List.find?_some h
+
+theorem findPool_mem {w : World} {pid : Nat} {P : MPool} (h : w.findPool pid = some P) : P ∈ w.pools :=
+  List.mem_of_find?_eq_some h
+
+theorem mem_others {w : World} {pid : Nat} {Q : MPool} : Q ∈ w.others pid ↔ Q ∈ w.pools ∧ Q.id ≠ pid := by
+  simp [World.others, List.mem_filter]
+
+/-! ### the invariant of the world -/
+
+def ownedAll (w : World) : List Ptr := w.pools.flatMap MPool.owned
+
+/-- the pointers of the live handles whose deleter names pool `i` -/
+def hptrs (hs : List (Nat × Handle)) (i : Nat) : List Ptr := (hs.filter (·.2.pool == i)).map (·.2.ptr)
+
+structure WInv (w : World) : Prop where
+  /-- the call log is well formed -/
+  wf : Log.wf w.log
+  /-- the blocks owned by the live pools are exactly the outstanding pointers -/
+  perm : (ownedAll w).Perm (outstanding w.log)
+  ids : (w.pools.map (·.id)).Nodup
+  idlt : ∀ P ∈ w.pools, P.id < w.nextId
+  hlt : ∀ h ∈ w.handles, h.2.pool < w.nextId
+  hnames : (w.handles.map (·.1)).Nodup
+  /-- the supplied blocks of a live pool are exactly the blocks its live handles refer to -/
+  hperm : ∀ P ∈ w.pools, (hptrs w.handles P.id).Perm P.keys
+  sizes : ∀ P ∈ w.pools, SizesOk P w.log
+
+theorem WInv.init : WInv World.init where
+  wf := trivial
+  perm := List.Perm.refl _
+  ids := List.nodup_nil
+  idlt := fun _ h => nomatch h
+  hlt := fun _ h => nomatch h
+  hnames := List.nodup_nil
+  hperm := fun _ h => nomatch h
+  sizes := fun _ h => nomatch h
+
+theorem hptrs_cons (n : Nat) (h : Handle) (hs : List (Nat × Handle)) (i : Nat) :
+    hptrs ((n, h) :: hs) i = if h.pool = i then h.ptr :: hptrs hs i else hptrs hs i := by
+  unfold hptrs
+  rw [List.filter_cons]
+  by_cases e : h.pool = i <;> simp [e]
+
+theorem hptrs_of_lt (hs : List (Nat × Handle)) (i : Nat) (h : ∀ x ∈ hs, x.2.pool < i) : hptrs hs i = [] := by
+  unfold hptrs
+  rw [List.filter_eq_nil_iff.2]
+  · rfl
+  · intro a ha
+    have := h a ha
+    have : a.2.pool ≠ i := by omega
+    simpa using this
+
+/-- splitting the registry at a live pool -/
+theorem WInv.split {w : World} (hi : WInv w) {pid : Nat} {P : MPool} (hf : w.findPool pid = some P) :
+    w.pools.Perm (P :: w.others pid) ∧ (ownedAll w).Perm (P.owned ++ (w.others pid).flatMap MPool.owned) :=
+  have h := find_split (fun Q : MPool => Q.id) pid w.pools P hi.ids hf
+  ⟨h, by simpa [ownedAll, World.others] using List.Perm.flatMap_right MPool.owned h⟩
+
+theorem mem_owned_others {w : World} {pid : Nat} {Q : MPool} (hQ : Q ∈ w.others pid) {x : Ptr} (hx : x ∈ Q.owned) :
+    x ∈ (w.others pid).flatMap MPool.owned := List.mem_flatMap.2 ⟨Q, hQ, hx⟩
+
+theorem sizesOk_congr {Q : MPool} {log log' : Log} (hs : SizesOk Q log)
+    (h : ∀ x ∈ Q.owned, allocSize log' x = allocSize log x) : SizesOk Q log' :=
+  ⟨fun k x hx => by rw [h x (by simp [MPool.owned, mem_flat.2 ⟨k, hx⟩])]; exact hs.1 k x hx,
+   fun x k hx => by rw [h x (by simp [MPool.owned, mem_keys hx])]; exact hs.2 x k hx⟩
+
+/-- the part of the invariant that does not depend on which branch `allocate` took -/
+theorem ids_replace {w : World} (hi : WInv w) {pid : Nat} {P P' : MPool} (hf : w.findPool pid = some P)
+    (hid : P'.id = P.id) :
+    ((P' :: w.others pid).map (·.id)).Nodup ∧ ∀ Q ∈ P' :: w.others pid, Q.id < w.nextId := by
+  have hsp := (hi.split hf).1
+  constructor
+  · have : ((P :: w.others pid).map (·.id)).Nodup := (hsp.map (·.id)).nodup hi.ids
+    simpa [hid] using this
+  · intro Q hQ
+    rcases List.mem_cons.1 hQ with h | h
+    · subst h; rw [hid]; exact hi.idlt P (findPool_mem hf)
+    · exact hi.idlt Q (mem_others.1 h).1
+
+/-! ### every client call preserves the invariant -/
+
+theorem WInv.create {w : World} (hi : WInv w) (ora : Oracle) (m : Nat) : WInv (w.step ora (.create m)).1 := by
+  show WInv { w with nextId := w.nextId + 1, pools := MPool.new w.nextId m :: w.pools }
+  refine { wf := hi.wf, perm := ?_, ids := ?_, idlt := ?_, hlt := ?_, hnames := hi.hnames, hperm := ?_, sizes := ?_ }
+  · have : ownedAll { w with nextId := w.nextId + 1, pools := MPool.new w.nextId m :: w.pools } = ownedAll w := by
+      simp [ownedAll, MPool.owned, MPool.new, flat_nil, MPool.keys]
+    rw [this]; exact hi.perm
+  · show ((MPool.new w.nextId m :: w.pools).map (·.id)).Nodup
+    rw [List.map_cons]
+    refine List.nodup_cons.2 ⟨?_, hi.ids⟩
+    intro hm
+    rcases List.mem_map.1 hm with ⟨Q, hQ, hq⟩
+    have := hi.idlt Q hQ
+    have : Q.id = w.nextId := hq
+    omega
+  · intro Q hQ
+    show Q.id < w.nextId + 1
+    rcases List.mem_cons.1 hQ with h | h
+    · subst h; exact Nat.lt_succ_self _
+    · exact Nat.lt_succ_of_lt (hi.idlt Q h)
+  · intro h hh
+    exact Nat.lt_succ_of_lt (hi.hlt h hh)
+  · intro Q hQ
+    rcases List.mem_cons.1 hQ with h | h
+    · subst h
+      show (hptrs w.handles w.nextId).Perm []
+      rw [hptrs_of_lt w.handles w.nextId hi.hlt]
+    · exact hi.hperm Q h
+  · intro Q hQ
+    rcases List.mem_cons.1 hQ with h | h
+    · subst h
+      exact ⟨fun _ _ hx => (nomatch hx), fun _ _ hx => (nomatch hx)⟩
+    · exact hi.sizes Q h
+
+/-- the world after `allocate` on the pool `pid` returned: new pool state, new log, and the new
+handle when a block was handed out -/
+def allocWorld (w : World) (pid name : Nat) (P' : MPool) (log' : Log) : MPool.AllocRes → World
+  | .block ptr _ => { w with pools := P' :: w.others pid, log := log', handles := (name, ⟨ptr, pid⟩) :: w.handles }
+  | _ => { w with pools := P' :: w.others pid, log := log' }
+
+/-- The world after `allocate` on the live pool `P` took the step `st`. -/
+theorem WInv.alloc_core {w : World} (hi : WInv w) {ora : Oracle} (hf : ora.Fresh) {pid name size : Nat} {P P' : MPool}
+    {log' : Log} {r : MPool.AllocRes} (hfind : w.findPool pid = some P)
+    (hname : w.handles.any (·.1 == name) = false)
+    (st : AllocStep ora P w.log size P' log' r) :
+    WInv (allocWorld w pid name P' log' r) := by
+  obtain ⟨hsp, hown⟩ := hi.split hfind
+  have hP := findPool_mem hfind
+  obtain ⟨hwf, hperm, hsz, hR, hid, _, hkeys⟩ :=
+    st.inv hf ((w.others pid).flatMap MPool.owned) hi.wf (hown.symm.trans hi.perm) (hi.sizes P hP)
+  obtain ⟨hids, hidlt⟩ := ids_replace hi hfind hid
+  have hPid := findPool_id hfind
+  have hsizes : ∀ Q ∈ P' :: w.others pid, SizesOk Q log' := by
+    intro Q hQ
+    rcases List.mem_cons.1 hQ with h | h
+    · subst h; exact hsz
+    · exact sizesOk_congr (hi.sizes Q (mem_others.1 h).1) (fun x hx => hR x (mem_owned_others h hx))
+  have hpermAll : ∀ hs, (ownedAll { w with pools := P' :: w.others pid, log := log', handles := hs }).Perm (outstanding log') := by
+    intro hs; simpa [ownedAll] using hperm
+  cases r with
+  | null =>
+    exact { wf := hwf, perm := hpermAll _, ids := hids, idlt := hidlt, hlt := hi.hlt, hnames := hi.hnames,
+            sizes := hsizes,
+            hperm := by
+              intro Q hQ
+              rcases List.mem_cons.1 hQ with h | h
+              · subst h; rw [hid]; exact (hi.hperm P hP).trans (by rw [show Q.keys = P.keys from hkeys])
+              · exact hi.hperm Q (mem_others.1 h).1 }
+  | error =>
+    exact { wf := hwf, perm := hpermAll _, ids := hids, idlt := hidlt, hlt := hi.hlt, hnames := hi.hnames,
+            sizes := hsizes,
+            hperm := by
+              intro Q hQ
+              rcases List.mem_cons.1 hQ with h | h
+              · subst h; rw [hid]; exact (hi.hperm P hP).trans (by rw [show Q.keys = P.keys from hkeys])
+              · exact hi.hperm Q (mem_others.1 h).1 }
+  | block ptr m =>
+    replace hkeys : P'.keys = ptr :: P.keys ∧ allocSize log' ptr = some m := hkeys
+    refine { wf := hwf, perm := hpermAll _, ids := hids, idlt := hidlt, hlt := ?_, hnames := ?_,
+             sizes := hsizes, hperm := ?_ }
+    · intro h hh
+      rcases List.mem_cons.1 hh with e | e
+      · subst e; exact hPid ▸ hi.idlt P hP
+      · exact hi.hlt h e
+    · show (((name, (⟨ptr, pid⟩ : Handle)) :: w.handles).map (·.1)).Nodup
+      rw [List.map_cons]
+      refine List.nodup_cons.2 ⟨?_, hi.hnames⟩
+      intro hm
+      rcases List.mem_map.1 hm with ⟨e, he, hen⟩
+      have : w.handles.any (·.1 == name) = true := List.any_eq_true.2 ⟨e, he, by simpa using hen⟩
+      rw [hname] at this; cases this
+    · intro Q hQ
+      show (hptrs ((name, (⟨ptr, pid⟩ : Handle)) :: w.handles) Q.id).Perm Q.keys
+      rw [hptrs_cons]
+      rcases List.mem_cons.1 hQ with h | h
+      · subst h
+        simp only [hid, hPid, if_true]
+        rw [hkeys.1, ← hPid]
+        exact List.Perm.cons ptr (hi.hperm P hP)
+      · have : pid ≠ Q.id := fun e => (mem_others.1 h).2 e.symm
+        simp only [this, if_false]
+        exact hi.hperm Q (mem_others.1 h).1
+
+/-- what `World.step` does for `alloc` on a live pool with an unused handle name -/
+theorem step_alloc_eq {w : World} {ora : Oracle} {pid name size : Nat} {P : MPool}
+    (hfind : w.findPool pid = some P) (hname : w.handles.any (·.1 == name) = false) :
+    (w.step ora (.alloc pid name size)).1 =
+      allocWorld w pid name (P.allocate ora w.log size).1 (P.allocate ora w.log size).2.1
+        (P.allocate ora w.log size).2.2 := by
+  unfold World.step
+  simp only [hfind, hname]
+  have hid := findPool_id hfind
+  rcases P.allocate ora w.log size with ⟨P', log', r⟩
+  cases r <;> simp [allocWorld, hid]
+
+theorem WInv.alloc {w : World} (hi : WInv w) {ora : Oracle} (hf : ora.Fresh) (pid name size : Nat) :
+    WInv (w.step ora (.alloc pid name size)).1 := by
+  cases hfind : w.findPool pid with
+  | none => simpa [World.step, hfind] using hi
+  | some P =>
+    cases hname : w.handles.any (·.1 == name) with
+    | true => simpa [World.step, hfind, hname] using hi
+    | false =>
+      rw [step_alloc_eq hfind hname]
+      exact hi.alloc_core hf hfind hname (allocate_step ora P w.log size)
+
+theorem findHandle_mem {w : World} {name : Nat} {h : Handle} (hf : w.findHandle name = some h) :
+    w.handles.find? (·.1 == name) = some (name, h) := by
+  unfold World.findHandle at hf
+  cases he : w.handles.find? (·.1 == name) with
+  | none => rw [he] at hf; cases hf
+  | some e =>
+    rw [he] at hf
+    have h1 : e.1 = name := by simpa using List.find?_some he
+    have h2 : e.2 = h := by simpa using hf
+    rw [← h1, ← h2]
+
+/-- removing the handle `name` removes exactly its pointer from the pointers of its pool -/
+theorem hptrs_drop {w : World} (hi : WInv w) {name : Nat} {h : Handle} (hf : w.findHandle name = some h) (i : Nat) :
+    (hptrs w.handles i).Perm
+      (if h.pool = i then h.ptr :: hptrs (w.handles.filter (·.1 != name)) i
+       else hptrs (w.handles.filter (·.1 != name)) i) := by
+  have hsp := find_split (fun e : Nat × Handle => e.1) name w.handles (name, h) hi.hnames (findHandle_mem hf)
+  have := (hsp.filter (·.2.pool == i)).map (·.2.ptr)
+  rw [← hptrs_cons]
+  exact this
+
+theorem WInv.drop {w : World} (hi : WInv w) (ora : Oracle) (name : Nat) : WInv (w.step ora (.drop name)).1 := by
+  cases hfh : w.findHandle name with
+  | none => simpa [World.step, hfh] using hi
+  | some h =>
+    have hsub : (w.handles.filter (·.1 != name)).Sublist w.handles := List.filter_sublist
+    have hnames' : ((w.handles.filter (·.1 != name)).map (·.1)).Nodup := hi.hnames.sublist (hsub.map _)
+    have hlt' : ∀ e ∈ w.handles.filter (·.1 != name), e.2.pool < w.nextId := fun e he => hi.hlt e (hsub.subset he)
+    -- pools other than the handle's keep their handles
+    have hother : ∀ Q ∈ w.pools, Q.id ≠ h.pool → (hptrs (w.handles.filter (·.1 != name)) Q.id).Perm Q.keys := by
+      intro Q hQ hne
+      have := hptrs_drop hi hfh Q.id
+      rw [if_neg (fun e => hne e.symm)] at this
+      exact this.symm.trans (hi.hperm Q hQ)
+    cases hfind : w.findPool h.pool with
+    | none =>
+      have : (w.step ora (.drop name)).1 = { w with handles := w.handles.filter (·.1 != name) } := by
+        simp [World.step, hfh, hfind]
+      rw [this]
+      exact { wf := hi.wf, perm := hi.perm, ids := hi.ids, idlt := hi.idlt, hlt := hlt', hnames := hnames',
+              sizes := hi.sizes,
+              hperm := fun Q hQ => hother Q hQ (fun e => by
+                have := List.find?_eq_none.1 hfind Q hQ
+                simp [e] at this) }
+    | some P =>
+      have hP := findPool_mem hfind
+      have hPid := findPool_id hfind
+      have hd := hptrs_drop hi hfh P.id
+      rw [if_pos hPid.symm] at hd
+      have hmem : h.ptr ∈ P.keys := (hi.hperm P hP).subset (hd.symm.subset (by simp))
+      cases hfree : P.free h.ptr with
+      | none =>
+        obtain ⟨k, _, he⟩ := free_of_mem hmem
+        rw [he] at hfree; cases hfree
+      | some P' =>
+        have : (w.step ora (.drop name)).1 =
+            { w with handles := w.handles.filter (·.1 != name), pools := P' :: w.others h.pool } := by
+          simp [World.step, hfh, hfind, hfree]
+        rw [this]
+        obtain ⟨hown', hsz, hid, _, hkeys, _⟩ := free_inv hfree (hi.sizes P hP)
+        obtain ⟨hsp, hown⟩ := hi.split hfind
+        obtain ⟨hids, hidlt⟩ := ids_replace hi hfind hid
+        refine { wf := hi.wf, perm := ?_, ids := hids, idlt := hidlt, hlt := hlt', hnames := hnames',
+                 sizes := ?_, hperm := ?_ }
+        · show (P'.owned ++ (w.others h.pool).flatMap MPool.owned).Perm (outstanding w.log)
+          exact ((List.Perm.append_right _ hown').trans hown.symm).trans hi.perm
+        · intro Q hQ
+          rcases List.mem_cons.1 hQ with e | e
+          · subst e
+            show (hptrs (w.handles.filter (·.1 != name)) Q.id).Perm Q.keys
+            rw [hid, hkeys]
+            have h1 : (h.ptr :: hptrs (w.handles.filter (·.1 != name)) P.id).Perm (h.ptr :: P.keys.erase h.ptr) :=
+              (hd.symm.trans (hi.hperm P hP)).trans (List.perm_cons_erase hmem)
+            exact h1.cons_inv
+          · exact hother Q (mem_others.1 e).1 (mem_others.1 e).2
+        · intro Q hQ
+          rcases List.mem_cons.1 hQ with e | e
+          · subst e; exact hsz
+          · exact hi.sizes Q (mem_others.1 e).1
+
+theorem WInv.destroy {w : World} (hi : WInv w) (ora : Oracle) (pid : Nat) : WInv (w.step ora (.destroy pid)).1 := by
+  cases hfind : w.findPool pid with
+  | none => simpa [World.step, hfind] using hi
+  | some P =>
+    have : (w.step ora (.destroy pid)).1 = { w with pools := w.others pid, log := (P.destroy w.log).2 } := by
+      simp [World.step, hfind]
+    rw [this]
+    obtain ⟨hsp, hown⟩ := hi.split hfind
+    obtain ⟨hwf, hperm, hsame, _⟩ := destroy_inv P w.log _ hi.wf (hown.symm.trans hi.perm)
+    have hsub : (w.others pid).Sublist w.pools := List.filter_sublist
+    exact { wf := hwf, perm := hperm, ids := hi.ids.sublist (hsub.map _),
+            idlt := fun Q hQ => hi.idlt Q (hsub.subset hQ), hlt := hi.hlt, hnames := hi.hnames,
+            hperm := fun Q hQ => hi.hperm Q (hsub.subset hQ),
+            sizes := fun Q hQ => sizesOk_congr (hi.sizes Q (hsub.subset hQ)) (fun x _ => hsame x) }
+
+/-- The invariant is preserved by every client call, whatever a fresh allocator answers. -/
+theorem WInv.step {w : World} (hi : WInv w) {ora : Oracle} (hf : ora.Fresh) (op : Op) : WInv (w.step ora op).1 := by
+  cases op with
+  | create m => exact hi.create ora m
+  | alloc pid name size => exact hi.alloc hf pid name size
+  | drop name => exact hi.drop ora name
+  | destroy pid => exact hi.destroy ora pid
+
+theorem WInv.runFrom {w : World} (hi : WInv w) : ∀ (h : History), h.Fresh → WInv (runFrom w h) := by
+  intro h
+  induction h generalizing w with
+  | nil => intro _; exact hi
+  | cons s h ih =>
+    intro hf
+    exact ih (hi.step (hf s (by simp)) s.2) (fun t ht => hf t (by simp [ht]))
+
+theorem WInv.run (h : History) (hf : h.Fresh) : WInv (run h) := WInv.init.runFrom h hf
+
+/-! ### `allocate` as a function of the class -/
+
+theorem allocate_null (ora : Oracle) (P : MPool) (log : Log) : P.allocate ora log 0 = (P, log, .null) := by
+  simp [MPool.allocate]
+
+theorem allocate_tooBig (ora : Oracle) (P : MPool) (log : Log) (size : Nat) (h0 : size ≠ 0)
+    (h : calculateShifts (effSize P size) > 63) : P.allocate ora log size = (P, log, .error) := by
+  unfold effSize at h
+  simp [MPool.allocate, h0, h]
+
+theorem allocate_eq (ora : Oracle) (P : MPool) (log : Log) (size : Nat) (h0 : size ≠ 0) (k : Fin 64)
+    (hk : k.val = calculateShifts (effSize P size)) :
+    P.allocate ora log size =
+      match P.reserved k with
+      | ptr :: rest =>
+        ({ P with reserved := setClass P.reserved k rest, supplied := MPool.emplace P.supplied ptr k }, log,
+          .block ptr (2 ^ k.val))
+      | [] =>
+        match ora log (2 ^ k.val) with
+        | some ptr =>
+          ({ P with supplied := MPool.emplace P.supplied ptr k }, .alloc (2 ^ k.val) (some ptr) :: log,
+            .block ptr (2 ^ k.val))
+        | none =>
+          match ora (relLog (flat P.reserved) (.alloc (2 ^ k.val) none :: log)) (2 ^ k.val) with
+          | some ptr =>
+            ({ P with reserved := fun _ => [], supplied := MPool.emplace P.supplied ptr k },
+              .alloc (2 ^ k.val) (some ptr) :: relLog (flat P.reserved) (.alloc (2 ^ k.val) none :: log),
+              .block ptr (2 ^ k.val))
+          | none =>
+            ({ P with reserved := fun _ => [] },
+              .alloc (2 ^ k.val) none :: relLog (flat P.reserved) (.alloc (2 ^ k.val) none :: log), .error) := by
+  have hs : ¬ calculateShifts (if size < P.minSize then P.minSize else size) > 63 := by
+    have := k.isLt
+    unfold effSize at hk
+    omega
+  have hkk : (⟨calculateShifts (if size < P.minSize then P.minSize else size), by omega⟩ : Fin 64) = k :=
+    Fin.ext (by rw [hk]; rfl)
+  unfold MPool.allocate
+  simp only [h0, if_false, hs, dite_false]
+  rw [memSize_eq _ hs, hkk, show calculateShifts (if size < P.minSize then P.minSize else size) = k.val from hk.symm ▸ rfl]
+  cases hr : P.reserved k with
+  | cons ptr rest => rfl
+  | nil =>
+    simp only []
+    cases ho : ora log (2 ^ k.val) with
+    | some ptr => rfl
+    | none =>
+      simp only [MPool.releaseReserved, relLog]
+      cases ho2 : ora (((flat P.reserved).map Event.del).reverse ++ Event.alloc (2 ^ k.val) none :: log) (2 ^ k.val) <;> rfl
+
+theorem allocate_id (ora : Oracle) (P : MPool) (log : Log) (size : Nat) : (P.allocate ora log size).1.id = P.id := by
+  have st := allocate_step ora P log size
+  generalize (P.allocate ora log size).1 = P' at st
+  generalize (P.allocate ora log size).2.1 = l' at st
+  generalize (P.allocate ora log size).2.2 = r at st
+  cases st <;> rfl
+
+/-! ### counting allocator and deleter calls -/
+
+/-- how often the allocator returned `p` -/
+def allocCount (p : Ptr) : Log → Nat
+  | [] => 0
+  | .alloc _ (some q) :: l => (if q = p then 1 else 0) + allocCount p l
+  | .alloc _ none :: l => allocCount p l
+  | .del _ :: l => allocCount p l
+
+/-- how often `p` was passed to the deleter -/
+def delCount (p : Ptr) : Log → Nat
+  | [] => 0
+  | .alloc _ _ :: l => delCount p l
+  | .del q :: l => (if q = p then 1 else 0) + delCount p l
+
+/-- In a well-formed log every pointer was deleted as often as it was allocated, except that an
+outstanding pointer has one allocation more. -/
+theorem wf_count (p : Ptr) : ∀ {log : Log}, Log.wf log →
+    allocCount p log = delCount p log + (outstanding log).count p := by
+  intro log
+  induction log with
+  | nil => intro _; rfl
+  | cons e l ih =>
+    intro hw
+    cases e with
+    | alloc s res =>
+      cases res with
+      | none => exact ih hw
+      | some q =>
+        have := ih hw.2
+        simp only [allocCount, delCount, outstanding, List.count_cons]
+        by_cases hq : q = p <;> simp [hq] <;> omega
+    | del q =>
+      have := ih hw.2
+      simp only [allocCount, delCount, outstanding]
+      by_cases hq : q = p
+      · subst hq
+        have hpos : 0 < (outstanding l).count q := List.count_pos_iff.2 hw.1
+        rw [List.count_erase_self]
+        simp; omega
+      · rw [List.count_erase_of_ne (Ne.symm hq)]
+        simp [hq]; omega
+
+/-- the pointers passed to the deleter in a piece of log -/
+def dels : Log → List Ptr
+  | [] => []
+  | .del p :: l => p :: dels l
+  | .alloc _ _ :: l => dels l
+
+theorem dels_append (a b : Log) : dels (a ++ b) = dels a ++ dels b := by
+  induction a with
+  | nil => rfl
+  | cons e a ih => cases e <;> simp [dels, ih]
+
+theorem dels_relLog_prefix (F : List Ptr) : dels ((F.map Event.del).reverse) = F.reverse := by
+  induction F with
+  | nil => rfl
+  | cons f F ih => simp [dels_append, ih, dels]
+
+def Event.isAlloc : Event → Bool
+  | .alloc _ _ => true
+  | .del _ => false
+
+theorem filter_isAlloc_dels (F : List Ptr) : ((F.map Event.del).reverse).filter Event.isAlloc = [] := by
+  apply List.filter_eq_nil_iff.2
+  intro e he
+  rcases List.mem_map.1 (List.mem_reverse.1 he) with ⟨p, _, rfl⟩
+  simp [Event.isAlloc]
+
+/-- The calls `allocate` adds to the log: the deleter is only called for blocks of this pool's
+free lists, and the allocator at most twice. -/
+theorem AllocStep.events {ora : Oracle} {P P' : MPool} {log log' : Log} {size : Nat} {r : MPool.AllocRes}
+    (st : AllocStep ora P log size P' log' r) :
+    ∃ evs, log' = evs ++ log ∧ (∀ x ∈ dels evs, x ∈ flat P.reserved) ∧
+      (evs.filter Event.isAlloc).length ≤ 2 := by
+  cases st with
+  | null => exact ⟨[], rfl, fun _ h => (nomatch h), by simp⟩
+  | tooBig => exact ⟨[], rfl, fun _ h => (nomatch h), by simp⟩
+  | reuse => exact ⟨[], rfl, fun _ h => (nomatch h), by simp⟩
+  | fresh k ptr => exact ⟨[.alloc (2 ^ k.val) (some ptr)], rfl, fun _ h => (nomatch h), by simp [List.filter, Event.isAlloc]⟩
+  | retryOk k ptr =>
+    refine ⟨.alloc (2 ^ k.val) (some ptr) :: (((flat P.reserved).map Event.del).reverse ++ [.alloc (2 ^ k.val) none]),
+      by simp [relLog], ?_, ?_⟩
+    · intro x hx
+      simp only [dels, dels_append, dels_relLog_prefix, List.append_nil] at hx
+      exact List.mem_reverse.1 hx
+    · rw [List.filter_cons, List.filter_append, filter_isAlloc_dels]; simp [List.filter, Event.isAlloc]
+  | retryFail k =>
+    refine ⟨.alloc (2 ^ k.val) none :: (((flat P.reserved).map Event.del).reverse ++ [.alloc (2 ^ k.val) none]),
+      by simp [relLog], ?_, ?_⟩
+    · intro x hx
+      simp only [dels, dels_append, dels_relLog_prefix, List.append_nil] at hx
+      exact List.mem_reverse.1 hx
+    · rw [List.filter_cons, List.filter_append, filter_isAlloc_dels]; simp [List.filter, Event.isAlloc]
+
+/-! ### consequences of the invariant -/
+
+theorem find_of_mem {α : Type} (key : α → Nat) : ∀ (l : List α) (a : α), (l.map key).Nodup → a ∈ l →
+    l.find? (key · == key a) = some a := by
+  intro l
+  induction l with
+  | nil => intro a _ h; cases h
+  | cons b l ih =>
+    intro a hn ha
+    rw [List.find?_cons]
+    rcases List.mem_cons.1 ha with h | h
+    · subst h; simp
+    · have hb : key b ≠ key a := by
+        intro e
+        exact (List.nodup_cons.1 hn).1 (List.mem_map.2 ⟨a, h, e.symm⟩)
+      have : (key b == key a) = false := by simpa using hb
+      rw [this]
+      exact ih a (List.nodup_cons.1 hn).2 h
+
+theorem WInv.findPool_of_mem {w : World} (hi : WInv w) {P : MPool} (hP : P ∈ w.pools) : w.findPool P.id = some P :=
+  find_of_mem (fun Q : MPool => Q.id) w.pools P hi.ids hP
+
+/-- all blocks owned by live pools are pairwise distinct -/
+theorem WInv.nodup_owned {w : World} (hi : WInv w) : (ownedAll w).Nodup := hi.perm.symm.nodup (wf_nodup hi.wf)
+
+/-- two live pools are the same pool or have different ids and share no block -/
+theorem WInv.pools_disjoint {w : World} (hi : WInv w) {P Q : MPool} (hP : P ∈ w.pools) (hQ : Q ∈ w.pools) :
+    P = Q ∨ (P.id ≠ Q.id ∧ ∀ x, x ∈ P.owned → x ∉ Q.owned) := by
+  have hf := hi.findPool_of_mem hP
+  obtain ⟨hsp, hown⟩ := hi.split hf
+  have hnd : (P.owned ++ (w.others P.id).flatMap MPool.owned).Nodup := hown.nodup hi.nodup_owned
+  rcases List.mem_cons.1 (hsp.subset hQ) with h | h
+  · exact Or.inl h.symm
+  · right
+    refine ⟨fun e => (mem_others.1 h).2 e.symm, fun x hx hxq => ?_⟩
+    exact (List.nodup_append.1 hnd).2.2 x hx x (mem_owned_others h hxq) rfl
+
+theorem WInv.pool_nodup {w : World} (hi : WInv w) {P : MPool} (hP : P ∈ w.pools) : P.owned.Nodup := by
+  obtain ⟨_, hown⟩ := hi.split (hi.findPool_of_mem hP)
+  exact (List.nodup_append.1 (hown.nodup hi.nodup_owned)).1
+
+/-- a supplied block of a live pool is in no free list of any live pool -/
+theorem WInv.supplied_not_reserved {w : World} (hi : WInv w) {P Q : MPool} (hP : P ∈ w.pools) (hQ : Q ∈ w.pools)
+    {x : Ptr} (hx : x ∈ P.keys) : x ∉ flat Q.reserved := by
+  intro hxq
+  rcases hi.pools_disjoint hP hQ with h | h
+  · subst h
+    exact (List.nodup_append.1 (hi.pool_nodup hP)).2.2 x hxq x hx rfl
+  · exact h.2 x (by simp [MPool.owned, hx]) (by simp [MPool.owned, hxq])
+
+/-- a block is supplied by at most one live pool -/
+theorem WInv.supplied_unique {w : World} (hi : WInv w) {P Q : MPool} (hP : P ∈ w.pools) (hQ : Q ∈ w.pools)
+    {x : Ptr} (hx : x ∈ P.keys) (hxq : x ∈ Q.keys) : P = Q := by
+  rcases hi.pools_disjoint hP hQ with h | h
+  · exact h
+  · exact absurd (show x ∈ Q.owned by simp [MPool.owned, hxq]) (h.2 x (by simp [MPool.owned, hx]))
+
+/-- the block of a live handle of a live pool is supplied by that pool -/
+theorem WInv.handle_supplied {w : World} (hi : WInv w) {name : Nat} {h : Handle} {P : MPool}
+    (hfh : w.findHandle name = some h) (hfp : w.findPool h.pool = some P) : h.ptr ∈ P.keys := by
+  have hd := hptrs_drop hi hfh P.id
+  rw [if_pos (findPool_id hfp).symm] at hd
+  exact (hi.hperm P (findPool_mem hfp)).subset (hd.symm.subset (by simp))
+
+/-! ### ids -/
+
+theorem free_id {P P' : MPool} {ptr : Ptr} (h : P.free ptr = some P') : P'.id = P.id := by
+  unfold MPool.free at h
+  split at h
+  · cases h
+  · cases h; rfl
+
+theorem step_nextId (ora : Oracle) (w : World) (op : Op) :
+    (w.step ora op).1.nextId = (match op with | .create _ => w.nextId + 1 | _ => w.nextId) := by
+  cases op with
+  | create m => rfl
+  | alloc pid name size =>
+    simp only [World.step]
+    split
+    · rfl
+    · split
+      · rfl
+      · split <;> rfl
+  | drop name =>
+    simp only [World.step]
+    split
+    · rfl
+    · split
+      · rfl
+      · split <;> rfl
+  | destroy pid =>
+    simp only [World.step]
+    split <;> rfl
+
+theorem step_nextId_le (ora : Oracle) (w : World) (op : Op) : w.nextId ≤ (w.step ora op).1.nextId := by
+  rw [step_nextId]; cases op <;> simp
+
+/-- a call returns `created i` only if it is `create`, and then `i` is the counter -/
+theorem step_created (ora : Oracle) (w : World) (op : Op) (i : Nat) (h : (w.step ora op).2 = .created i) :
+    i = w.nextId ∧ (w.step ora op).1.nextId = w.nextId + 1 := by
+  cases op with
+  | create m => simp [World.step] at h ⊢; exact h.symm
+  | alloc pid name size =>
+    exfalso
+    simp only [World.step] at h
+    split at h
+    · cases h
+    · split at h
+      · cases h
+      · split at h <;> cases h
+  | drop name =>
+    exfalso
+    simp only [World.step] at h
+    split at h
+    · cases h
+    · split at h
+      · cases h
+      · split at h <;> cases h
+  | destroy pid =>
+    exfalso
+    simp only [World.step] at h
+    split at h <;> cases h
+
+/-- the ids in the registry after a call: old ones, or the counter -/
+theorem step_pool_ids (ora : Oracle) (w : World) (op : Op) :
+    ∀ Q ∈ (w.step ora op).1.pools, (∃ Q' ∈ w.pools, Q'.id = Q.id) ∨ Q.id = w.nextId := by
+  have hsub : ∀ pid Q, Q ∈ w.others pid → (∃ Q' ∈ w.pools, Q'.id = Q.id) ∨ Q.id = w.nextId :=
+    fun pid Q hQ => Or.inl ⟨Q, (mem_others.1 hQ).1, rfl⟩
+  have hself : ∀ Q, Q ∈ w.pools → (∃ Q' ∈ w.pools, Q'.id = Q.id) ∨ Q.id = w.nextId :=
+    fun Q hQ => Or.inl ⟨Q, hQ, rfl⟩
+  cases op with
+  | create m =>
+    intro Q hQ
+    rcases List.mem_cons.1 hQ with h | h
+    · subst h; exact Or.inr rfl
+    · exact hself Q h
+  | alloc pid name size =>
+    cases hfind : w.findPool pid with
+    | none => simpa [World.step, hfind] using hself
+    | some P =>
+      cases hname : w.handles.any (·.1 == name) with
+      | true => simpa [World.step, hfind, hname] using hself
+      | false =>
+        rw [step_alloc_eq hfind hname]
+        intro Q hQ
+        have hQ' : Q ∈ (P.allocate ora w.log size).1 :: w.others pid := by
+          generalize (P.allocate ora w.log size).2.2 = r at hQ
+          cases r <;> exact hQ
+        rcases List.mem_cons.1 hQ' with h | h
+        · subst h; exact Or.inl ⟨P, findPool_mem hfind, (allocate_id ora P w.log size).symm⟩
+        · exact hsub pid Q h
+  | drop name =>
+    cases hfh : w.findHandle name with
+    | none => simpa [World.step, hfh] using hself
+    | some h =>
+      cases hfind : w.findPool h.pool with
+      | none => simpa [World.step, hfh, hfind] using hself
+      | some P =>
+        cases hfree : P.free h.ptr with
+        | none => simpa [World.step, hfh, hfind, hfree] using hself
+        | some P' =>
+          intro Q hQ
+          have hQ' : Q ∈ P' :: w.others h.pool := by simpa [World.step, hfh, hfind, hfree] using hQ
+          rcases List.mem_cons.1 hQ' with e | e
+          · subst e; exact Or.inl ⟨P, findPool_mem hfind, (free_id hfree).symm⟩
+          · exact hsub _ Q e
+  | destroy pid =>
+    cases hfind : w.findPool pid with
+    | none => simpa [World.step, hfind] using hself
+    | some P =>
+      intro Q hQ
+      have hQ' : Q ∈ w.others pid := by simpa [World.step, hfind] using hQ
+      exact hsub pid Q hQ'
+
+/-- An id below the counter that no live pool has is never the id of a pool again. -/
+theorem dead_stays_dead (i : Nat) : ∀ (h : History) (w : World), i < w.nextId → (∀ Q ∈ w.pools, Q.id ≠ i) →
+    i < (runFrom w h).nextId ∧ ∀ Q ∈ (runFrom w h).pools, Q.id ≠ i := by
+  intro h
+  induction h with
+  | nil => intro w h1 h2; exact ⟨h1, h2⟩
+  | cons s h ih =>
+    intro w h1 h2
+    apply ih (w.step s.1 s.2).1
+    · exact Nat.lt_of_lt_of_le h1 (step_nextId_le s.1 w s.2)
+    · intro Q hQ
+      rcases step_pool_ids s.1 w s.2 Q hQ with ⟨Q', hQ', e⟩ | e
+      · rw [← e]; exact h2 Q' hQ'
+      · omega
+
+/-- the ids handed out by the `create` calls -/
+def createdIds : List Res → List Nat
+  | [] => []
+  | .created i :: rs => i :: createdIds rs
+  | _ :: rs => createdIds rs
+
+theorem createdIds_results : ∀ (h : History) (w : World),
+    (createdIds (results w h)).Pairwise (· < ·) ∧ ∀ i ∈ createdIds (results w h), w.nextId ≤ i := by
+  intro h
+  induction h with
+  | nil => intro w; exact ⟨List.Pairwise.nil, fun _ hi => nomatch hi⟩
+  | cons s h ih =>
+    intro w
+    obtain ⟨ih1, ih2⟩ := ih (w.step s.1 s.2).1
+    have hle := step_nextId_le s.1 w s.2
+    have e : results w (s :: h) = (w.step s.1 s.2).2 :: results (w.step s.1 s.2).1 h := rfl
+    rw [e]
+    cases hr : (w.step s.1 s.2).2 with
+    | created i =>
+      obtain ⟨e1, e2⟩ := step_created s.1 w s.2 i hr
+      simp only [createdIds]
+      refine ⟨List.pairwise_cons.2 ⟨fun j hj => ?_, ih1⟩, fun j hj => ?_⟩
+      · have := ih2 j hj; omega
+      · rcases List.mem_cons.1 hj with e | e
+        · omega
+        · have := ih2 j e; omega
+    | handle p a => exact ⟨ih1, fun j hj => Nat.le_trans hle (ih2 j hj)⟩
+    | error => exact ⟨ih1, fun j hj => Nat.le_trans hle (ih2 j hj)⟩
+    | unit => exact ⟨ih1, fun j hj => Nat.le_trans hle (ih2 j hj)⟩
+    | invalid => exact ⟨ih1, fun j hj => Nat.le_trans hle (ih2 j hj)⟩
+
+/-! ### what the calls add to the log -/
+
+def allocRes : MPool.AllocRes → Res
+  | .null => .handle none 0
+  | .error => .error
+  | .block ptr m => .handle (some ptr) m
+
+theorem step_alloc_res {w : World} {ora : Oracle} {pid name size : Nat} {P : MPool}
+    (hfind : w.findPool pid = some P) (hname : w.handles.any (·.1 == name) = false) :
+    (w.step ora (.alloc pid name size)).2 = allocRes (P.allocate ora w.log size).2.2 := by
+  unfold World.step
+  simp only [hfind, hname]
+  rcases P.allocate ora w.log size with ⟨P', log', r⟩
+  cases r <;> rfl
+
+theorem step_alloc_log {w : World} {ora : Oracle} {pid name size : Nat} {P : MPool}
+    (hfind : w.findPool pid = some P) (hname : w.handles.any (·.1 == name) = false) :
+    (w.step ora (.alloc pid name size)).1.log = (P.allocate ora w.log size).2.1 := by
+  rw [step_alloc_eq hfind hname]
+  generalize (P.allocate ora w.log size).2.2 = r
+  cases r <;> rfl
+
+theorem allocate_events (ora : Oracle) (P : MPool) (log : Log) (size : Nat) :
+    ∃ evs, (P.allocate ora log size).2.1 = evs ++ log ∧ (∀ x ∈ dels evs, x ∈ flat P.reserved) ∧
+      (evs.filter Event.isAlloc).length ≤ 2 :=
+  (allocate_step ora P log size).events
+
+/-- `alloc` calls the deleter only for blocks in the free lists of the pool it is called on, and the
+allocator at most twice. -/
+theorem step_events_alloc (ora : Oracle) (w : World) (pid name size : Nat) :
+    ∃ evs, (w.step ora (.alloc pid name size)).1.log = evs ++ w.log ∧
+      (∀ x ∈ dels evs, ∃ P, w.findPool pid = some P ∧ x ∈ flat P.reserved) ∧
+      (evs.filter Event.isAlloc).length ≤ 2 := by
+  cases hfind : w.findPool pid with
+  | none => exact ⟨[], by simp [World.step, hfind], fun _ h => (nomatch h), by simp⟩
+  | some P =>
+    cases hname : w.handles.any (·.1 == name) with
+    | true => exact ⟨[], by simp [World.step, hfind, hname], fun _ h => (nomatch h), by simp⟩
+    | false =>
+      obtain ⟨evs, h1, h2, h3⟩ := allocate_events ora P w.log size
+      exact ⟨evs, by rw [step_alloc_log hfind hname, h1], fun x hx => ⟨P, rfl, h2 x hx⟩, h3⟩
+
+theorem step_log_create (ora : Oracle) (w : World) (m : Nat) : (w.step ora (.create m)).1.log = w.log := rfl
+
+/-- releasing a handle never calls the allocator or the deleter -/
+theorem step_log_drop (ora : Oracle) (w : World) (name : Nat) : (w.step ora (.drop name)).1.log = w.log := by
+  simp only [World.step]
+  split
+  · rfl
+  · split
+    · rfl
+    · split <;> rfl
+
+/-- releasing a handle never raises an error -/
+theorem step_res_drop (ora : Oracle) (w : World) (name : Nat) :
+    (w.step ora (.drop name)).2 = if (w.findHandle name).isSome then .unit else .invalid := by
+  simp only [World.step]
+  split
+  · rename_i h; simp [h]
+  · rename_i h
+    simp only [h, Option.isSome_some, if_true]
+    split
+    · rfl
+    · split <;> rfl
+
+/-- the destructor calls the deleter exactly for the blocks the pool owns, and never the allocator -/
+theorem step_events_destroy (ora : Oracle) (w : World) (pid : Nat) (P : MPool) (hfind : w.findPool pid = some P) :
+    ∃ evs, (w.step ora (.destroy pid)).1.log = evs ++ w.log ∧ (dels evs).Perm P.owned ∧
+      evs.filter Event.isAlloc = [] := by
+  have hF : (flat (MPool.drain P.reserved P.supplied)).Perm P.owned :=
+    (flat_drain P.supplied P.reserved).trans List.perm_append_comm
+  refine ⟨((flat (MPool.drain P.reserved P.supplied)).map Event.del).reverse, ?_, ?_, filter_isAlloc_dels _⟩
+  · simp [World.step, hfind, MPool.destroy, MPool.releaseReserved]
+  · rw [dels_relLog_prefix]
+    exact (List.reverse_perm _).trans hF
+
+/-- A block handed out by `alloc` was obtained from the allocator with the reported size, and no live
+pool was supplying it. -/
+theorem WInv.alloc_block_facts {w : World} (hi : WInv w) {ora : Oracle} (hf : ora.Fresh) {pid size : Nat} {P : MPool}
+    (hfind : w.findPool pid = some P) {ptr : Ptr} {m : Nat}
+    (hr : (P.allocate ora w.log size).2.2 = .block ptr m) :
+    allocSize (P.allocate ora w.log size).2.1 ptr = some m ∧ ∀ Q ∈ w.pools, ptr ∉ Q.keys := by
+  obtain ⟨hsp, hown⟩ := hi.split hfind
+  have hP := findPool_mem hfind
+  have st := allocate_step ora P w.log size
+  obtain ⟨hwf, hperm, _, _, _, _, hkeys⟩ :=
+    st.inv hf ((w.others pid).flatMap MPool.owned) hi.wf (hown.symm.trans hi.perm) (hi.sizes P hP)
+  rw [hr] at hkeys
+  replace hkeys : (P.allocate ora w.log size).1.keys = ptr :: P.keys ∧
+      allocSize (P.allocate ora w.log size).2.1 ptr = some m := hkeys
+  refine ⟨hkeys.2, ?_⟩
+  have hnd := hperm.symm.nodup (wf_nodup hwf)
+  have hnd1 := (List.nodup_append.1 hnd).1
+  have hk : ((P.allocate ora w.log size).1.keys).Nodup := (List.nodup_append.1 hnd1).2.1
+  rw [hkeys.1] at hk
+  have hin : ptr ∈ (P.allocate ora w.log size).1.owned := by simp [MPool.owned, hkeys.1]
+  intro Q hQ hq
+  rcases List.mem_cons.1 (hsp.subset hQ) with e | e
+  · subst e; exact (List.nodup_cons.1 hk).1 hq
+  · exact (List.nodup_append.1 hnd).2.2 ptr hin ptr (mem_owned_others e (by simp [MPool.owned, hq])) rfl
+
+/-- every result block of `allocate` has a power-of-two size: the class of the effective size -/
+theorem allocate_block_size (ora : Oracle) (P : MPool) (log : Log) (size : Nat) (ptr : Ptr) (m : Nat)
+    (hr : (P.allocate ora log size).2.2 = .block ptr m) :
+    size ≠ 0 ∧ ¬ calculateShifts (effSize P size) > 63 ∧ m = 2 ^ calculateShifts (effSize P size) := by
+  have st := allocate_step ora P log size
+  generalize (P.allocate ora log size).1 = P' at st
+  generalize (P.allocate ora log size).2.1 = l' at st
+  generalize (P.allocate ora log size).2.2 = r at st hr
+  cases st with
+  | null => cases hr
+  | tooBig => cases hr
+  | retryFail => cases hr
+  | reuse k _ _ h0 hk => cases hr; exact ⟨h0, by have := k.isLt; omega, by rw [hk]⟩
+  | fresh k _ h0 hk => cases hr; exact ⟨h0, by have := k.isLt; omega, by rw [hk]⟩
+  | retryOk k _ h0 hk => cases hr; exact ⟨h0, by have := k.isLt; omega, by rw [hk]⟩
+
+theorem effSize_eq_max (P : MPool) (size : Nat) : effSize P size = max size P.minSize := by
+  unfold effSize; split <;> omega
 
 end Primitiv.Pool
